@@ -335,3 +335,13 @@ PROPS["C20"]["quick"].update({"cases": 500, "floor_evaluations": 900, "floor_non
 PROPS["C05"]["quick"].update({"cases": 5000, "floor_evaluations": 8000, "floor_nontrivial": 50000})
 PROPS["C11"]["quick"].update({"cases": 600000, "floor_evaluations": 500000, "floor_nontrivial": 200000})
 PROPS["C12"]["quick"].update({"cases": 4000000, "params": {"float_stride": 512}, "floor_evaluations": 8000000, "floor_nontrivial": 2000000})
+
+# libFuzzer raw mode: first byte 0x01 selects the raw-input branch of C10 (below(12)==1), second byte the limit
+PROPS["C10"]["fuzz_raw_seeds"] = [("extras/fuzzing/json_seed_corpus", [1, 0])]
+PROPS["C10"]["fuzz_dict"] = "corpus/json.dict"
+PROPS["C10"]["fuzz_max_len"] = 512
+
+# C03 byte decoder: msgpack flag (below(5) >= 3 -> msgpack), then below(10)==1 selects raw input
+PROPS["C03"]["fuzz_raw_seeds"] = [("extras/fuzzing/json_seed_corpus", [0, 0, 0, 0, 1]), ("extras/fuzzing/msgpack_seed_corpus", [4, 0, 0, 0, 1])]
+PROPS["C03"]["fuzz_dict"] = "corpus/json.dict"
+PROPS["C03"]["fuzz_max_len"] = 700
